@@ -327,9 +327,28 @@ def hyp_settings(max_examples: int, shrink: bool = True, **kw: Any):
     )
 
 
+CHUNK = 2500
+
+
 def drive(run: Run, test_fn: Callable[..., None], strategy_args: Dict[str, Any], max_examples: int, seed_salt: int = 0,
           reruns: int = 4, **setkw: Any) -> None:
-    """Run a Hypothesis campaign of ``test_fn`` under the run's seed; collect Found failures and continue."""
+    """Run a Hypothesis campaign in chunks of at most CHUNK examples (Hypothesis keeps a tree of everything it generated in one
+    run; chunking bounds its memory and makes the cost linear). Each chunk has its own derived seed."""
+    done = 0
+    c = 0
+    while done < max_examples:
+        n = min(CHUNK, max_examples - done)
+        _drive_chunk(run, test_fn, strategy_args, n, seed_salt * 131 + c, reruns, **dict(setkw))
+        done += n
+        c += 1
+        if len(run.violations) >= 8:
+            run.notes.append("campaign cut short: 8 distinct root causes already reported")
+            return
+
+
+def _drive_chunk(run: Run, test_fn: Callable[..., None], strategy_args: Dict[str, Any], max_examples: int, seed_salt: int = 0,
+                 reruns: int = 4, **setkw: Any) -> None:
+    """Run one Hypothesis campaign of ``test_fn`` under the run's seed; collect Found failures and continue."""
     import hypothesis
     from hypothesis import given
 
